@@ -323,4 +323,210 @@ theorem paintSingle_flat1 (g : SGState) (st fi eo : Bool) (sp : SubPath) (hne : 
   simpa using drop_step (argsOf g st fi eo) (apply_matrix_pt g.ctm sp.start) _ sp.closed
     (pathOf (apply_matrix_pt g.ctm) sp) hne'
 
+/-! ### shapes of zero-segment sub-paths are not observed -/
+
+/-- A shape whose `original_path` contains at least one segment operator. -/
+def hasSeg (s : Shape) : Bool := s.path.any PSeg.isSeg
+
+theorem classifyShape_path (a : PaintArgs) (shape : List Char) (pts : List Point) (tpath : List PSeg) :
+    ∀ s ∈ classifyShape a shape pts tpath, s.path = tpath := by
+  intro s hs
+  unfold classifyShape at hs
+  split at hs
+  · split at hs
+    · simp only [List.mem_singleton] at hs; subst hs; rfl
+    · cases hs
+  · split at hs
+    · split at hs
+      · split at hs
+        · simp only [List.mem_singleton] at hs; subst hs; rfl
+        · simp only [List.mem_singleton] at hs; subst hs; rfl
+      · cases hs
+    · simp only [List.mem_singleton] at hs; subst hs; rfl
+
+theorem paintSingle_path (ctm : Matrix) (a : PaintArgs) (path : List PSeg) :
+    ∀ s ∈ paintSingle ctm a path, s.path = path.map (PSeg.mapPts (apply_matrix_pt ctm)) := by
+  intro s hs
+  cases path with
+  | nil => cases hs
+  | cons first rest => exact classifyShape_path _ _ _ _ s hs
+
+theorem any_isSeg_map (f : Point → Point) (path : List PSeg) :
+    (path.map (PSeg.mapPts f)).any PSeg.isSeg = path.any PSeg.isSeg := by
+  induction path with
+  | nil => rfl
+  | cons x rest ih =>
+    have : (x.mapPts f).isSeg = x.isSeg := by cases x <;> rfl
+    simp [this, ih]
+
+theorem filter_hasSeg (ctm : Matrix) (a : PaintArgs) (path : List PSeg) :
+    (paintSingle ctm a path).filter hasSeg = if path.any PSeg.isSeg then paintSingle ctm a path else [] := by
+  have h := paintSingle_path ctm a path
+  split
+  · rename_i hp
+    apply List.filter_eq_self.2
+    intro s hs
+    show hasSeg s = true
+    unfold hasSeg
+    rw [h s hs, any_isSeg_map]; exact hp
+  · rename_i hp
+    apply List.filter_eq_nil_iff.2
+    intro s hs
+    show ¬ hasSeg s = true
+    unfold hasSeg
+    rw [h s hs, any_isSeg_map]; exact hp
+
+theorem flat1_any (sp : SubPath) : (flat1 sp).any PSeg.isSeg = !sp.segs.isEmpty := by
+  obtain ⟨s, segs, c, imp⟩ := sp
+  have h1 : ∀ g : Seg, g.toPSeg.isSeg = true := by intro g; cases g <;> rfl
+  have hm : (PSeg.m s).isSeg = false := rfl
+  have hh : PSeg.h.isSeg = false := rfl
+  cases segs with
+  | nil => cases c <;> simp [flat1, hm, hh]
+  | cons g rest => simp [flat1, hm, h1]
+
+/-- One sub-path, with or without segments. -/
+theorem per_subpath (g : SGState) (st fi eo : Bool) (sp : SubPath) :
+    ((paintSingle g.ctm (argsOf g st fi eo) (flat1 sp)).filter hasSeg).map eraseRectPts =
+      (shapeOf g st fi eo sp).toList.map eraseRectPts := by
+  rw [filter_hasSeg, flat1_any]
+  by_cases hne : sp.segs = []
+  · simp [hne, shapeOf]
+  · have : sp.segs.isEmpty = false := by
+      cases h : sp.segs with
+      | nil => exact absurd h hne
+      | cons _ _ => rfl
+    simp only [this, Bool.not_false, if_true]
+    exact paintSingle_flat1 g st fi eo sp hne
+
+/-! ### a whole path: split at `m` -/
+
+def flat (sps : List SubPath) : List PSeg := sps.flatMap flat1
+
+/-- the tail of `flat1` (everything after the `m`) contains no `m`. -/
+def tail1 (sp : SubPath) : List PSeg := sp.segs.map Seg.toPSeg ++ (if sp.closed then [PSeg.h] else [])
+
+theorem flat1_eq (sp : SubPath) : flat1 sp = PSeg.m sp.start :: tail1 sp := rfl
+
+theorem tail1_noM (sp : SubPath) : ∀ x ∈ tail1 sp, x.isM = false := by
+  intro x hx
+  simp only [tail1, List.mem_append, List.mem_map] at hx
+  rcases hx with ⟨g, _, rfl⟩ | hx
+  · cases g <;> rfl
+  · split at hx
+    · simp only [List.mem_singleton] at hx; subst hx; rfl
+    · cases hx
+
+theorem splitAux_noM (acc xs tail : List PSeg) (h : ∀ x ∈ xs, x.isM = false) :
+    splitAux (some acc) (xs ++ tail) = splitAux (some (acc ++ xs)) tail := by
+  induction xs generalizing acc with
+  | nil => simp
+  | cons x rest ih =>
+    have hx : x.isM = false := h x (List.mem_cons_self ..)
+    simp only [List.cons_append, splitAux, hx, Bool.false_eq_true, if_false]
+    rw [ih _ (fun y hy => h y (List.mem_cons_of_mem _ hy))]
+    simp
+
+theorem splitAux_flat (cur : Option (List PSeg)) (sps : List SubPath) :
+    splitAux cur (flat sps) = flushSub cur ++ (sps.map flat1).filter (fun l => l.length > 1) := by
+  induction sps generalizing cur with
+  | nil => simp [flat, splitAux]
+  | cons sp rest ih =>
+    have hm : (PSeg.m sp.start).isM = true := rfl
+    have : flat (sp :: rest) = PSeg.m sp.start :: (tail1 sp ++ flat rest) := by
+      simp [flat, flat1_eq]
+    rw [this]
+    simp only [splitAux, hm, if_true]
+    rw [splitAux_noM _ _ _ (tail1_noM sp), ih]
+    simp only [flushSub, List.map_cons, flat1_eq, List.singleton_append]
+    by_cases hl : 0 < (tail1 sp).length
+    · simp [List.filter_cons, hl]
+    · simp [List.filter_cons, hl]
+
+theorem splitM_flat (sps : List SubPath) :
+    splitM (flat sps) = (sps.map flat1).filter (fun l => l.length > 1) := by
+  simp [splitM, splitAux_flat, flushSub]
+
+theorem countM_flat (sps : List SubPath) : countM (flat sps) = sps.length := by
+  induction sps with
+  | nil => rfl
+  | cons sp rest ih =>
+    have hm : (PSeg.m sp.start).isM = true := rfl
+    have ht : (tail1 sp).filter PSeg.isM = [] := by
+      apply List.filter_eq_nil_iff.2
+      intro x hx; simp [tail1_noM sp x hx]
+    have : flat (sp :: rest) = PSeg.m sp.start :: (tail1 sp ++ flat rest) := by
+      simp [flat, flat1_eq]
+    unfold countM at ih ⊢
+    rw [this]
+    simp [List.filter_cons, hm, ht, ih]
+
+/-! ### the implicit `m` after `h` -/
+
+/-- The implementation's `curpath` for a list of sub-paths: an implicitly begun sub-path has no `m`. -/
+def enc1 (sp : SubPath) : List PSeg := (if sp.implicit then [] else [PSeg.m sp.start]) ++ tail1 sp
+def enc (sps : List SubPath) : List PSeg := sps.flatMap enc1
+
+/-- Invariant of the specification's path: an implicit sub-path follows a closed sub-path with the same
+start point and has a segment (`stp`/`prevH` describe the sub-path before the list). -/
+def okFrom (stp : Point) (prevH : Bool) : List SubPath → Prop
+  | [] => True
+  | sp :: rest =>
+    (sp.implicit = true → prevH = true ∧ sp.start = stp ∧ sp.segs ≠ []) ∧ okFrom sp.start sp.closed rest
+
+theorem ex_segs (st : PSeg) (segs : List Seg) (tail : List PSeg) :
+    explicitM st false (segs.map Seg.toPSeg ++ tail) = segs.map Seg.toPSeg ++ explicitM st false tail := by
+  induction segs with
+  | nil => rfl
+  | cons g rest ih =>
+    have h1 : g.toPSeg.isM = false := by cases g <;> rfl
+    have h2 : g.toPSeg.isH = false := by cases g <;> rfl
+    simp only [List.map_cons, List.cons_append, explicitM, h1, h2, Bool.and_false, Bool.false_eq_true, if_false, ih]
+
+theorem ex_tail (st : PSeg) (sp : SubPath) (tail : List PSeg) :
+    explicitM st false (tail1 sp ++ tail) = tail1 sp ++ explicitM st sp.closed tail := by
+  unfold tail1
+  rw [List.append_assoc, ex_segs]
+  cases sp.closed
+  · simp
+  · have h1 : PSeg.h.isM = false := rfl
+    have h2 : PSeg.h.isH = true := rfl
+    have h3 : PSeg.h.isSeg = false := rfl
+    simp [explicitM, h1, h2, h3]
+
+theorem explicitM_enc (stp : Point) (prevH : Bool) (sps : List SubPath) (h : okFrom stp prevH sps) :
+    explicitM (PSeg.m stp) prevH (enc sps) = flat sps := by
+  induction sps generalizing stp prevH with
+  | nil => rfl
+  | cons sp rest ih =>
+    obtain ⟨h1, h2⟩ := h
+    have hf : flat (sp :: rest) = PSeg.m sp.start :: (tail1 sp ++ flat rest) := by simp [flat, flat1_eq]
+    have he : enc (sp :: rest) = enc1 sp ++ enc rest := by simp [enc]
+    rw [hf, he]
+    cases himp : sp.implicit
+    · have hm : (PSeg.m sp.start).isM = true := rfl
+      simp only [enc1, himp, Bool.false_eq_true, if_false, List.singleton_append, List.cons_append, explicitM, hm,
+        if_true, List.nil_append]
+      rw [ex_tail, ih _ _ h2]
+    · obtain ⟨hp, hs, hne⟩ := h1 himp
+      subst hp
+      obtain ⟨s, segs, c, imp⟩ := sp
+      simp only at hs himp hne h2 ⊢
+      subst hs himp
+      cases segs with
+      | nil => exact absurd rfl hne
+      | cons g gs =>
+        have g1 : g.toPSeg.isM = false := by cases g <;> rfl
+        have g2 : g.toPSeg.isSeg = true := by cases g <;> rfl
+        have g3 : g.toPSeg.isH = false := by cases g <;> rfl
+        have e1 : enc1 { start := s, segs := g :: gs, closed := c, implicit := true } =
+            g.toPSeg :: tail1 { start := s, segs := gs, closed := c, implicit := true } := by
+          simp [enc1, tail1]
+        have e2 : tail1 { start := s, segs := g :: gs, closed := c, implicit := true } =
+            g.toPSeg :: tail1 { start := s, segs := gs, closed := c, implicit := true } := by
+          simp [tail1]
+        rw [e1, e2]
+        simp only [List.cons_append, explicitM, g1, g2, g3, Bool.and_self, Bool.false_eq_true, if_false, if_true]
+        rw [ex_tail, ih _ _ h2]
+
 end PdfVerif.PathLemmas
